@@ -1793,6 +1793,8 @@ no_more_buffers:
         vmovdqa [rsp + _STATE + 32*i], ymm0
 %assign i (i + 1)
 %endrep
+        vmovdqa [rsp + _YMM_SAVE], ymm0
+        vmovdqa [rsp + _YMM_SAVE + 32], ymm0
 %endif ; SAFE_DATA
 
 %ifndef LINUX
